@@ -13,7 +13,7 @@ from ..procs import run_forked
 PID = 'C09'
 LEVEL = 'fault_enumeration'
 RULE = ('enumeration of start state {empty, non-empty} x rank 1-3 x number of chunks 0-4 x failure position 0..n x '
-        'failure kind {iterable raises, wrong trailing shape, wrong rank, unconvertible str element, complex into real, '
+        'failure kind (plain, and inside an open_array() context after a successful append in that context) {iterable raises, wrong trailing shape, wrong rank, unconvertible str element, complex into real, '
         'integer too large, 0-d ndarray chunk, kernel-enforced write failure via RLIMIT_FSIZE at every chunk boundary '
         '-1/0/+1 byte, mid element, mid row, one item into a chunk, for stdio-buffered (80 B), medium (8 kB) and large '
         '(800 kB) chunks} x API {append, iterappend}; oracle: the call raised, a fresh Array opens, the independent decoder '
@@ -52,6 +52,10 @@ def cases(tier, seed):
                               nt = 'float32'
                           yield {'k': 'logic', 'api': 'iterappend', 'start': start, 'trail': list(trail), 'kind': kind,
                                  'n': n, 'pos': pos, 'numtype': nt, 'bo': bo}
+                          if n == nmax or pos == 0:
+                              # the same fault inside an open_array() context, after a successful append in that context
+                              yield {'k': 'logic', 'api': 'iterappend', 'start': start, 'trail': list(trail), 'kind': kind,
+                                     'n': n, 'pos': pos, 'numtype': nt, 'bo': bo, 'inctx': True}
                   if kind != 'iterraises':
                       nt, bo = combos[idx % len(combos)]
                       idx += 1
@@ -201,16 +205,27 @@ def run_logic(case, env, res, d):
     for c in chunks[:pos]:
         expected = np.concatenate([expected, c], axis=0).astype(dtype)
     raised = None
-    try:
+
+    def call():
         if case['api'] == 'append':
             a.append(chunks[0])
         elif kind == 'iterraises':
             a.iterappend(failing_iter(chunks, pos))
         else:
             a.iterappend(iter(chunks))
+    try:
+        if case.get('inctx'):
+            pre = good_chunk(rng, dtype, trail, 2, 40)
+            expected = np.concatenate([ref, pre] + [c for c in chunks[:pos]], axis=0).astype(dtype)
+            with a.open_array():
+                a.append(pre)
+                call()
+        else:
+            call()
     except Exception as e:
         raised = e
     res.count('mon.logic_faults')
+    res.dim('context', 'inside open_array after an append' if case.get('inctx') else 'plain')
     res.count('mon.failure_oracle')
     for symptom, msg in oracle(D, path, a, expected, type(raised).__name__ if raised else None):
         res.fail(f'logic:{kind}:{symptom}:{case["start"]}',
